@@ -22,7 +22,7 @@ SPEC = {
              "trees with equal non-empty content, or a pair differing in exactly one leaf; distinct = distinct case."),
     "shards": {"quick": 16, "thorough": 16},
     "min_counts": {"quick": {"evaluations": 300, "eq_checked": 20000, "isempty_checked": 1000,
-                             "count_checked": 1000, "nonempty_checked": 1000, "triples_checked": 300}},
+                             "count_checked": 1000, "nonempty_checked": 1000, "triples_checked": 300, "copy_checked": 1000}},
     "assumptions": [
         "both sides of a comparison share the same leaf default and depth",
         "tensors compared have identical rank ids (the statement is conditional on that)",
@@ -117,7 +117,10 @@ def _build(spec, own, default, depth, ext=None, salt=0):
     shape = None
     if own == "tensor-shape" and ext:
         shape = [e + 1 + (salt % 2) for e in ext]
-    return gen.tensor_from_spec(spec, ids, shape=shape, default=default)
+    # the free fibers are sometimes built with a leaf default other than the tensor's: once owned, only the
+    # rank's default counts (also for detached copies made later)
+    fd = None if salt % 2 == 0 else (0 if default != 0 else 3)
+    return gen.tensor_from_spec(spec, ids, shape=shape, default=default, fiber_default=fd)
 
 
 def _root(x):
@@ -169,6 +172,19 @@ def _unary(mon, x, default, tag):
             mon.check(_eq(mon, x, dc, "orig==deepcopy"), f"deepcopy:not-equal:{tag}", "x != deepcopy(x)")
         e = _eq(mon, x, x, "x==x")
         mon.check(e, f"eq:not-reflexive:{tag}", "x != x")
+        # copies with and without the owner (ownership must not matter)
+        for keep in (True, False):
+            cp = r.copy(preserve_owner=keep)
+            mon.count("copy_checked")
+            ck = f"copy(preserve_owner={keep})"
+            mon.check(content(cp, default) == c, f"copy:content:{tag}:{'owned' if keep else 'detached'}",
+                      f"{ck} holds content {content(cp, default)} != original {c}")
+            e = _eq(mon, cp, r, ck + "==orig")
+            if e is not None:
+                mon.check(e and _eq(mon, r, cp, "orig==" + ck), f"copy:not-equal:{tag}:{'owned' if keep else 'detached'}",
+                          f"{ck} does not compare equal to its original (default {default})")
+            mon.check(cp.countValues() == len(c) and cp.isEmpty() == (c == {}), f"copy:count:{tag}:{'owned' if keep else 'detached'}",
+                      f"{ck}: countValues()={cp.countValues()} isEmpty()={cp.isEmpty()} but the content has {len(c)} points")
     except BaseException as ex:     # noqa
         mon.violation(f"unary:raised:{type(ex).__name__}:{tag}", f"query raised {type(ex).__name__}: {ex}")
     return c
@@ -180,7 +196,7 @@ def run_case(case, mon):
         v1, v2 = case["v"]
         trees = _grid_trees(default, v1, v2)
         own = case["own"]
-        objs = [_build(t, own, default, 2) for t in trees]
+        objs = [_build(t, own, default, 2, salt=k) for k, t in enumerate(trees)]
         conts = [content(o, default) for o in objs]
         i = case["i"]
         a = objs[i]
